@@ -309,6 +309,10 @@ def MonState.observe (m : MonState) (op : Op) (evs : List String) (post : Option
               if m.detectors.length > slot then
                 m := { m with detectors := m.detectors.modify slot fun d => { d with epoch := v.now, de := 0, k := d.k + 1, refreshing := false } }
               if (m.bound.any fun (_, sl) => sl == slot) then hits := hits ++ ["pool.swap_of_slot_with_bound_keys"]
+              -- the replacement takes over the channel's bound keys: every key the history says is bound to
+              -- this slot is looked up on the replacement from now on (C07; C01 has the same through affinity_refines)
+              if !(m.bound.all fun (k, sl) => sl != slot || lookup pv.affinity k == some sc) then
+                fails := fails ++ [("C07", "swap_takes_over")]
             | none => fails := fails ++ [("C07", "swap_takes_over")]
           | _, _ => pure ()
           m := { m with removedOnce := m.removedOnce ++ removes }
